@@ -496,6 +496,15 @@ def bundle_cases(tier, seed):
             if m is not None:
                 tags = m.pop("_tags", []) + ["top" if s[0] == d["top"] else "deep"]
                 designs.append(m); metas.append(dict(cls="b_anon_extra", kind="bundle-mutant", tags=tags))
+        # ... and an extra member INSIDE a nested anonymous bundle (one level down from a member that exists)
+        inner = [(s, p) for s in bsites(d) for p in _anons(_bsite(d, s)[2][1]) if p != ()]
+        if inner:
+            rr = core.rng(seed, "C02F", "b_anon_extra_inner", k)
+            s, p = rr.choice(inner)
+            m = b_anon_extra(rr, copy.deepcopy(d), s, p)
+            if m is not None:
+                tags = m.pop("_tags", []) + ["inside-nested-anon"]
+                designs.append(m); metas.append(dict(cls="b_anon_extra", kind="bundle-mutant", tags=tags))
     # ... and base designs SELECTED for having an anonymous-bundle member beside a port it could refer to: the no-connect that is also
     # referenced through an anonymous-bundle member, top and deep
     k, found = 0, 0
